@@ -22,6 +22,23 @@ pub struct Namespace {
     pub rust_mod_name: String,
 }
 
+/// Text taken from a schema, escaped so that it can stand between the quotes of a Rust string literal
+/// (and evaluates to the original text there).
+pub fn rust_str(text: &str) -> String {
+    let mut escaped = String::with_capacity(text.len());
+    for c in text.chars() {
+        match c {
+            '"' | '\\' => {
+                escaped.push('\\');
+                escaped.push(c);
+            }
+            c if c.is_control() => escaped.extend(c.escape_default()),
+            c => escaped.push(c),
+        }
+    }
+    escaped
+}
+
 pub trait TryFromNode<'n>: Sized {
     /// The type returned in the event of a conversion error.
     type Error;
